@@ -41,6 +41,15 @@ func GenWindow(t *rapid.T, label string, maxBig int) (kr, a, b int) {
 	}
 }
 
+// GenFix draws a fixture construction order for RootWindow: the three plain
+// orders, or (one case in four) the two-piece order 4+s with s in 0..2C.
+func GenFix(t *rapid.T, label string, C int) int {
+	if rapid.IntRange(0, 3).Draw(t, label+"Pieces") == 0 {
+		return 4 + rapid.IntRange(0, 2*C).Draw(t, label+"FirstPiece")
+	}
+	return rapid.IntRange(0, 2).Draw(t, label)
+}
+
 // GenLenRel draws a length relative to n: 0, shorter, equal, longer by one,
 // longer by many.
 func GenLenRel(t *rapid.T, label string, n int) int {
